@@ -2,7 +2,11 @@ package rules
 
 import (
 	"go/ast"
+	"go/token"
 	"go/types"
+	"golang.org/x/tools/go/ssa"
+	"kverif/internal/an"
+	"sort"
 	"strings"
 
 	"golang.org/x/tools/go/packages"
@@ -216,4 +220,106 @@ func (c *Ctx) RunSortIndex(rule string, sites []SortSite) (n int) {
 		n++
 	}
 	return n
+}
+
+// ComparatorChain reads a comparator closure on SSA: the keys it compares in order ("<field><op>", prefixed "swapped"
+// when the operands are taken in the order j,i) and what it falls back to when all keys are equal (the callee name or
+// the last comparison). It understands if-chains, tag-less switches, hoisted elements ("a, b := s[i], s[j]") and
+// single-exit forms alike, because it works on the return alternatives and the relations that guard them.
+func (c *Ctx) ComparatorChain(lit *ast.FuncLit) (keys []string, tail string, ok bool) {
+	var fn *ssa.Function
+	for _, f := range c.P.AllFuncs() {
+		if f.Syntax() == ast.Node(lit) {
+			fn = f
+		}
+	}
+	if fn == nil || len(fn.Params) < 2 {
+		return nil, "", false
+	}
+	pi, pj := fn.Params[len(fn.Params)-2], fn.Params[len(fn.Params)-1]
+	side := func(v ssa.Value) string {
+		hasI, hasJ := false, false
+		for x := range backwardAll(v) {
+			if x == ssa.Value(pi) {
+				hasI = true
+			}
+			if x == ssa.Value(pj) {
+				hasJ = true
+			}
+		}
+		switch {
+		case hasI && !hasJ:
+			return "i"
+		case hasJ && !hasI:
+			return "j"
+		}
+		return "?"
+	}
+	field := func(v ssa.Value) string {
+		p := an.Path(v)
+		if i := strings.LastIndex(p, "."); i >= 0 {
+			return p[i+1:]
+		}
+		return ""
+	}
+	type keyAlt struct {
+		name  string
+		depth int
+	}
+	var ks []keyAlt
+	tailDepth := -1
+	for _, alt := range an.ReturnAlts(fn) {
+		if len(alt.Results) != 1 {
+			return nil, "", false
+		}
+		// how many keys are known equal on this alternative, and which differ
+		nEq := 0
+		differ := map[string]bool{}
+		for _, g := range alt.Guards {
+			rel, isRel := an.RelOf(g)
+			if !isRel || side(rel.X) == "?" || side(rel.Y) == "?" || side(rel.X) == side(rel.Y) || field(rel.X) == "" || field(rel.X) != field(rel.Y) {
+				continue
+			}
+			switch rel.Op {
+			case token.EQL:
+				nEq++
+			case token.NEQ:
+				differ[field(rel.X)] = true
+			}
+		}
+		res, _ := an.StripNot(alt.Results[0])
+		if bo, isB := res.(*ssa.BinOp); isB && (bo.Op == token.LSS || bo.Op == token.GTR || bo.Op == token.LEQ || bo.Op == token.GEQ) &&
+			field(bo.X) != "" && field(bo.X) == field(bo.Y) && side(bo.X) != "?" && side(bo.X) != side(bo.Y) && differ[field(bo.X)] {
+			name := field(bo.X) + bo.Op.String()
+			if side(bo.X) == "j" {
+				name = "swapped" + name
+			}
+			ks = append(ks, keyAlt{name, nEq})
+			continue
+		}
+		// the fall-back
+		if nEq > tailDepth {
+			tailDepth = nEq
+			switch x := res.(type) {
+			case *ssa.Call:
+				if callee := x.Call.StaticCallee(); callee != nil {
+					tail = callee.Name()
+				} else {
+					tail = strings.TrimLeft(an.Path(x.Call.Value), "*")
+				}
+			case *ssa.BinOp:
+				tail = field(x.X) + x.Op.String()
+			default:
+				tail = an.Path(res)
+			}
+		}
+	}
+	sort.SliceStable(ks, func(a, b int) bool { return ks[a].depth < ks[b].depth })
+	for i, k := range ks {
+		if k.depth != i {
+			return nil, "", false // not a lexicographic chain
+		}
+		keys = append(keys, k.name)
+	}
+	return keys, tail, true
 }
